@@ -8,7 +8,8 @@ Profiles bias the generator towards the case splits of the proofs:
   task    self/other/fresh/already-run registrations from every handler kind
   event   posts from every handler kind, unregister of queued events, raw events
   quit    iv_quit anywhere, failing registrations
-  fault   EINTR at the k-th wait, missing system calls
+  fault   EINTR at the k-th wait, missing system calls (from the first call or, for eventfd2 / eventfd,
+          from the k-th creation on: efdok=<k>)
   mixed   everything
 """
 
@@ -146,7 +147,9 @@ class Gen:
 
 FAULT_SETS = [["nopwait2"], ["permpwait2"], ["notimerfd"], ["noppoll"], ["noeventfd2"], ["noeventfd"],
               ["nocreate1"], ["eintr@1"], ["eintr@2"], ["eintr@3", "eintr@4"], ["eintr@5"], ["ctleintr@2"],
-              ["ctleintr@5"], ["nopwait2", "notimerfd"], ["noeventfd", "eintr@2"], ["emfile"]]
+              ["ctleintr@5"], ["nopwait2", "notimerfd"], ["noeventfd", "eintr@2"], ["emfile"],
+              ["noeventfd", "efdok=1"], ["noeventfd", "efdok=2"], ["noeventfd2", "efdok=1"], ["noeventfd", "efdok=3"],
+              ["noeventfd2", "noeventfd", "efdok=1"], ["noeventfd", "efdok=1", "eintr@2"], ["noeventfd2", "efdok=2"]]
 
 
 def standing_deadline(rng, backend):
@@ -162,4 +165,76 @@ def standing_deadline(rng, backend):
             "Hf1:ks1= fu1", "Ht0:%s" % r.choice(["-", "tr0+%d" % d, "fu0", "q"]), "Ht1:-", "Hk0:-"]
     if r.random() < 0.4:
         secs.append("X" + r.choice(["eintr@%d" % r.randint(2, 8), "notimerfd", "nopwait2"]))
+    return ";".join(secs)
+
+
+def efd_cut(rng, backend):
+    """eventfd2 / eventfd start failing after k descriptors were created: raw events and iv_events registered before
+    and after the cut (mixed transports), posts to the earlier and the later objects in both orders, unregister /
+    re-register across the cut, and the kick descriptor of the epoll methods (its own eventfd_in_use copy)
+    re-created after the cut."""
+    r = rng
+    k = r.choice([1, 1, 1, 2, 2, 3])
+    fl = r.choice([["noeventfd"], ["noeventfd"], ["noeventfd"], ["noeventfd2"], ["noeventfd2", "noeventfd"]]) + ["efdok=%d" % k]
+    if r.random() < 0.15:
+        fl.append(r.choice(["eintr@2", "eintr@3", "ctleintr@2", "notimerfd"]))
+    nraw = r.randint(2, 4)
+    nev = r.randint(0, 2)
+    # registration order: objects created before / after the cut are decided by k and this order
+    regs = ["rr%d" % j for j in range(nraw)] + ["er%d" % e for e in range(nev)]
+    r.shuffle(regs)
+    if r.random() < 0.5:
+        regs.sort(key=lambda a: a[0] != "r")       # raw events first: the earlier ones are eventfd-backed
+    def post():
+        c = r.random()
+        if nev and c < 0.25:
+            return "ep%d" % r.randrange(nev)
+        return "rp%d" % r.randrange(nraw)
+    def posts(n):
+        return [post() for _ in range(n)]
+    style = r.choice(["setup", "setup", "late", "churn", "kick"])
+    setup = []
+    secs = ["B" + backend, "X" + ",".join(fl), "M%d" % r.choice([8, 12, 16])]
+    hr = {}
+    if style == "setup":
+        setup = regs + posts(r.randint(1, 2 * nraw))
+        if r.random() < 0.5:
+            setup = setup[::-1] if r.random() < 0.2 else setup
+        for j in range(nraw):
+            hr[j] = r.choice(["-", "rp%d" % r.randrange(nraw), "ru%d" % j, "-/ru%d rr%d rp%d" % (j, j, j),
+                              "rp%d/-" % ((j + 1) % nraw), "ru%d rr%d rp%d/-" % ((j + 1) % nraw, (j + 1) % nraw, (j + 1) % nraw)])
+    elif style == "late":
+        # some objects before the loop runs, the others from a timer handler; posts from outside at later waits
+        cut = r.randint(1, len(regs) - 1)
+        setup = regs[:cut] + posts(r.randint(0, 2)) + ["tr0+%d" % r.choice([1000000, 5000000])]
+        secs.append("Ht0:" + " ".join(regs[cut:] + posts(r.randint(1, 4))) + r.choice(["", " tr0+5000000"]) + "/" +
+                    " ".join(posts(r.randint(1, 3))) + "/-")
+        for j in range(nraw):
+            hr[j] = r.choice(["-", "rp%d/-" % r.randrange(nraw), "-/ru%d" % j])
+    elif style == "churn":
+        # unregister / re-register across the cut: the same object changes transport
+        j0 = r.randrange(nraw)
+        setup = regs + ["rp%d" % j0] + posts(r.randint(0, 3))
+        hr[j0] = "ru%d rr%d rp%d/%s/-" % (j0, j0, j0, r.choice(["-", "ru%d" % j0, "rp%d" % ((j0 + 1) % nraw)]))
+        for j in range(nraw):
+            hr.setdefault(j, r.choice(["-", "ru%d rr%d/-" % (j0, j0), "rp%d/-" % j0]))
+    else:
+        # the kick descriptor: all iv_events unregistered (kick closed), eventfds used up by raw events, then an
+        # iv_event is registered again and posted
+        setup = ["er0", "ep0"] + ["rr%d" % j for j in range(nraw)] + posts(2) + ["tr0+%d" % r.choice([1000000, 5000000])]
+        secs.append("He0:" + r.choice(["eu0", "-/eu0", "eu0 er0 ep0/-"]))
+        secs.append("Ht0:" + r.choice(["er0 ep0", "eu0 er0 ep0", "er0 ep0 rp0", "ru0 er0 ep0 rr0 rp0"]) + " tr0+3000000/" +
+                    r.choice(["ep0", "eu0 er0 ep0", "rp0 ep0"]) + "/-")
+        for j in range(nraw):
+            hr[j] = r.choice(["-", "ep0", "rp%d/-" % r.randrange(nraw)])
+        nev = max(nev, 1)
+    secs.insert(3, "S " + " ".join(setup))
+    for j in range(nraw):
+        secs.append("Hr%d:%s" % (j, hr.get(j, "-")))
+    if style != "kick":
+        for e in range(nev):
+            secs.append("He%d:%s" % (e, r.choice(["-", "rp%d" % r.randrange(nraw), "eu%d" % e, "ep%d/-" % e])))
+    for w in range(1, 7):
+        if r.random() < 0.45:
+            secs.append("W%d:%s" % (w, " ".join("rp%d" % r.randrange(nraw) for _ in range(r.choice([1, 1, 2, 3])))))
     return ";".join(secs)
